@@ -1046,6 +1046,12 @@ func init() {
 
 func progsC13(t *testing.T) {
 	progsDegenerate(t, "C13")
+	if common.Batch == 5%common.NBatch {
+		for _, ops := range []int{1 << 40, 1<<63 - 1} {
+			realTimeHugeOps("C13", ops, false)
+			realTimeHugeOps("C13", ops, true)
+		}
+	}
 	if common.Batch == 1%common.NBatch {
 		realTimeThrottle("C13", 1, common.Pick(3000, 12000), time.Millisecond, false)
 	}
